@@ -1315,6 +1315,8 @@ package reftable
 // of sane size) - but the body is walked (`checkcalls`): every call it makes must meet the callee's precondition, in
 // particular reloadOnce must be given the names that were just read from tables.list, on every iteration of the retry loop.
 // The precondition on reuseOpen is handed on to the callers.
+// the handle's tables are the list it read last, in order (C09: what "refreshed" means; C10: one version of the list)
+//@ spec snap(st *Stack) bool = len(st.stack) == lastReadLen && (forall i int :: 0 <= i && i < len(st.stack) ==> st.stack[i].name == lastReadNames[i])
 //@ func (*Stack).reload
 //@   checkcalls
 //@   props C05 C06 C10
@@ -1322,6 +1324,7 @@ package reftable
 //@   requires[no-reuse-means-all-replaced] !reuseOpen ==> (forall j int :: 0 <= j && j < len(st.stack) ==> retired[st.stack[j].name])
 //@   modifies st.stack, st.merged, rdClosed, tblExists, listNames, listLen, lastReadNames, lastReadLen, buflen, bufdata, lastDelta, lastSought, seekOn, seekName, seekIdx, yielded, stream
 //@   ensures wfStack(st) && listStable()
+//@   ensures[refreshed] snap(st)
 //@   loop 1 invariant[retry] wfStack(st) && (!reuseOpen ==> (forall j int :: 0 <= j && j < len(st.stack) ==> retired[st.stack[j].name]))
 //@   loop 2 invariant[tabs] -1 <= rangeindex
 //@   ensures[gc-keeps-listed-and-unknown] forall p string :: old(tblExists[p]) && !tblExists[p] ==> (exists j int :: 0 <= j && j < old(len(st.stack)) && p == pathJoin(theDir, old(st.stack[j].name)))
@@ -1825,6 +1828,7 @@ package reftable
 //@   ensures[no-temp] tmpSubset()
 //@   ensures[at-most-one] appends <= old(appends) + 1 && appends >= old(appends)
 //@   ensures[lock-failure-means-not-committed] result == ErrLockFailure ==> appends == old(appends)
+//@   ensures[stale-handle-is-refreshed] result == ErrLockFailure ==> snap(st)
 
 //@ func (*Merged).MaxUpdateIndex
 //@   props C16
